@@ -80,6 +80,11 @@ CLAIMED = {
         design="9.5/C19 (notes/C19.md)",
         note="Trusted: Coq kernel; stdlib axioms used ONLY by the three rate theorems in Properties/C19_rate.v: ClassicalDedekindReals.sig_forall_dec, ClassicalDedekindReals.sig_not_dec, FunctionalExtensionality.functional_extensionality_dep, Classical_Prop.classic (all declared by the Coq standard library, pulled in by Reals/exp_increasing); numpy exp is not modelled (p is taken from the implementation and its range is checked). Observation only: in two-qubit gates only the control's idle clock is consulted.",
         technique="Coq proof (interval arithmetic over Q, Reals for the rate bound) + translators with generated lemmas + exact-rational correspondence"),
+    "C20": dict(
+        text="PARTIAL by nature. Coq theorems over Model D (connect-retry state machine as coded; process list of Network): in every fair run, for every n and every order in which nodes come up, a state is reached in which check_connections holds at every node, it is stable, never prematurely true, no duplicate connections; stop empties the process set and start after stop works (repaired start()); the unrepaired restart is refuted. The OS half (process death, port release, spawn latency) is OBSERVED, not proved: real Network.start/stop on a scratch copy with real processes and TCP (1..3 nodes quick, 1..5 thorough), readiness, check_connections over a PB client at every node, a native program and create_keep/recv_keep over real sockets, every pid dead and every port listenable after stop, restart, staggered manual launches compared with the model on the recorded launch order.",
+        design="9.5/C20 (notes/C20.md)",
+        note="Trusted: Coq kernel; spawn/terminate are Section hypotheses (spawn Fresh = Alive, terminate Alive = Ended), not axioms; the OS; connection attempts are not observable from outside (only the monotone predicate is compared).",
+        technique="Coq proof (fairness/measure argument over the connect-retry LTS) + correspondence with real processes and sockets"),
 }
 
 PENDING_REASON = "machinery for this property is not built yet in this revision (no claim made); see DESIGN.md section 4"
